@@ -31,6 +31,7 @@ ASSUMPTIONS = ['parse(...) == constructed is not asserted (parsed bodies carry a
 SHRINK_LISTS = ()
 REQUIRED_CLASSES = ('how:from_value', 'how:from_children', 'cls:Transaction', 'cls:Posting', 'cls:File', 'cls:Custom', 'cls:CostSpec', 'cls:MetaItem', 'cls:Open')
 
+EXPR_CLASSES = ['NumberAddExpr', 'NumberMulExpr', 'NumberUnaryExpr', 'NumberParenExpr']
 CLASSES = ['Amount', 'Tolerance', 'UnitPrice', 'TotalPrice', 'CompoundAmount', 'UnitCost', 'TotalCost', 'CostSpec', 'NumberExpr', 'MetaItem', 'Posting',
            'Balance', 'Close', 'Commodity', 'Custom', 'Document', 'Event', 'IgnoredLine', 'Include', 'Note', 'Open', 'Option', 'Pad', 'Plugin', 'Popmeta',
            'Poptag', 'Price', 'Pushmeta', 'Pushtag', 'Query', 'Transaction', 'File']
@@ -44,6 +45,8 @@ class Spec:
 
 
 def plan(g: L.G, cname: str, how: str, depth: int = 0, present: Optional[set] = None, indent: Optional[str] = None) -> dict:
+    if cname in EXPR_CLASSES:
+        return plan_expr(g, cname, depth)
     cls = getattr(models, cname)
     fn = getattr(cls, how)
     sig = inspect.signature(fn)
@@ -65,10 +68,49 @@ def plan(g: L.G, cname: str, how: str, depth: int = 0, present: Optional[set] = 
     return {'cls': cname, 'how': how, 'args': args}
 
 
+NUMBER_POOL = ['2000', '1999', '12345', '1', '2', '12', '31', '7', '0', '10', '3']
+
+
+def plan_expr(g: L.G, cname: str, depth: int = 0) -> dict:
+    """An arithmetic tree assembled bottom-up with the from_children constructors (operands / ops tuples, unary, parentheses).  Integer
+    operands of 4-5 and 1-2 digits are frequent: an expression printed without blanks around '/' or '-' would read as a date."""
+    def number() -> dict:
+        if g.p(0.6):
+            return {'vt': 'donor', 'v': {'k': 'NUMBER', 't': g.pick(NUMBER_POOL)}}
+        return {'vt': 'donor', 'v': {'k': 'NUMBER', 't': _dec_text(abs(D.decimal_value(g)))}}
+
+    def atom(d: int) -> dict:
+        x = g.n(0, 9)
+        if d >= 3 or x <= 5:
+            return number()
+        if x <= 7:
+            return plan_expr(g, 'NumberUnaryExpr', d + 1)
+        return plan_expr(g, 'NumberParenExpr', d + 1)
+    if cname == 'NumberUnaryExpr':
+        return {'cls': cname, 'how': 'from_children', 'args': {'unary_op': {'vt': 'donor', 'v': {'k': 'UNARY_OP', 't': g.pick('+-')}}, 'operand': atom(depth + 1)}}
+    if cname == 'NumberParenExpr':
+        return {'cls': cname, 'how': 'from_children', 'args': {'inner_expr': plan_expr(g, 'NumberAddExpr', depth + 1)}}
+    n = g.pick([1, 1, 2, 2, 3, 3, 4])
+    if cname == 'NumberMulExpr':
+        ops = [{'vt': 'donor', 'v': {'k': 'MUL_OP', 't': g.pick('*//')}} for _ in range(n - 1)]
+        return {'cls': cname, 'how': 'from_children', 'args': {'operands': {'vt': 'tuple', 'v': [atom(depth) for _ in range(n)]}, 'ops': {'vt': 'tuple', 'v': ops}}}
+    ops = [{'vt': 'donor', 'v': {'k': 'ADD_OP', 't': g.pick('+--')}} for _ in range(n - 1)]
+    return {'cls': 'NumberAddExpr', 'how': 'from_children',
+            'args': {'operands': {'vt': 'tuple', 'v': [plan_expr(g, 'NumberMulExpr', depth) for _ in range(n)]}, 'ops': {'vt': 'tuple', 'v': ops}}}
+
+
+def constructed_number(g: L.G, depth: int) -> dict:
+    return {'cls': 'NumberExpr', 'how': 'from_children', 'args': {'number_add_expr': plan_expr(g, 'NumberAddExpr', depth + 1)}}
+
+
 def arg_for(g: L.G, cname: str, how: str, name: str, depth: int, indent: Optional[str]) -> Any:
     val = how == 'from_value'
     S_ = lambda: {'vt': 'str', 'v': D.string_value(g)}  # noqa: E731
-    tok = lambda kind, **kw: {'vt': 'donor', 'v': D.make(kind, g, **kw)}  # noqa: E731
+
+    def tok(kind: str, **kw: Any) -> dict:
+        if kind == 'number_expr' and g.p(0.3):
+            return constructed_number(g, depth)   # assembled with from_children all the way down instead of parsed from text
+        return {'vt': 'donor', 'v': D.make(kind, g, **kw)}
     ind = indent or g.pick(['  ', '    ', '\t', ' \t'])
     if name == 'date':
         return {'vt': 'date', 'v': D.date_value(g).isoformat()} if val or cname == 'CostSpec' else tok('DATE')
@@ -173,7 +215,7 @@ def arg_for(g: L.G, cname: str, how: str, name: str, depth: int, indent: Optiona
     if cname == 'CostSpec' and name == 'cost':
         return plan(g, g.pick(['UnitCost', 'TotalCost']), 'from_children', depth + 1)
     if name == 'number_add_expr':
-        return tok('add_expr')
+        return plan_expr(g, 'NumberAddExpr', depth + 1) if g.p(0.5) else tok('add_expr')
     if name == 'ignored':
         return tok('IGNORED')
     if name == 'directives':
@@ -206,6 +248,8 @@ def realise(spec: Any) -> Any:
         return getattr(cls, spec['how'])(**kwargs)
     if isinstance(spec, dict) and spec.get('vt') == 'dict':
         return {k: D.decode(v) for k, v in spec['v']}
+    if isinstance(spec, dict) and spec.get('vt') == 'tuple':
+        return tuple(realise(x) for x in spec['v'])
     return D.decode(spec)
 
 
@@ -234,6 +278,8 @@ def count_features(spec: Any) -> tuple:
             o, m, e, n = count_features(v)
             mlist, esc, neg = max(mlist, m), esc or e, neg or n
         return opt, mlist, esc, neg
+    if isinstance(spec, dict) and spec.get('vt') == 'tuple':
+        return count_features(spec['v'])
     if isinstance(spec, dict):
         v = spec.get('v')
         if spec.get('vt') == 'str' and isinstance(v, str):
@@ -258,11 +304,25 @@ def expected_getters(spec: dict) -> dict:
     return out
 
 
+def _nested_classes(spec: Any) -> set:
+    out: set = set()
+    if isinstance(spec, list):
+        for x in spec:
+            out |= _nested_classes(x)
+    elif isinstance(spec, dict) and 'cls' in spec:
+        out.add(spec['cls'])
+        for v in spec['args'].values():
+            out |= _nested_classes(v)
+    elif isinstance(spec, dict) and spec.get('vt') == 'tuple':
+        out |= _nested_classes(spec['v'])
+    return out
+
+
 def run_case(case: dict) -> Result:
     res = Result()
     spec = case['spec']
     cname, how = spec['cls'], spec['how']
-    classes = {'how:' + how, 'cls:' + cname}
+    classes = {'how:' + how, 'cls:' + cname} | {'uses:' + c for c in _nested_classes(spec) if c in EXPR_CLASSES}
     try:
         m = realise(spec)
     except ValueError as e:
@@ -327,7 +387,7 @@ def _build(tier: str):
 
     def build(rnd: Any) -> dict:
         g = L.G(rnd, cfg)
-        cname = g.pick(CLASSES + ['Transaction', 'Posting', 'File', 'Custom', 'CostSpec', 'MetaItem'])
+        cname = g.pick(CLASSES + ['Transaction', 'Posting', 'File', 'Custom', 'CostSpec', 'MetaItem', 'MetaItem', 'Custom', 'NumberExpr'])
         hows = [h for h in ('from_value', 'from_children') if hasattr(getattr(models, cname), h)]
         return {'spec': plan(g, cname, g.pick(hows), indent=g.pick(['  ', '    ', '\t']) if cname in INDENTED else None)}
     return build
@@ -352,7 +412,46 @@ def _sweep():
                     yield {'spec': plan(g, cname, how, present=set(subset), indent='  ' if cname in INDENTED else None)}
 
 
+def flat_expr_spec(nums: list, ops: list) -> dict:
+    """The from_children recipe of the flat expression nums[0] ops[0] nums[1] ... (multiplicative runs grouped, as the grammar would)."""
+    num = lambda t: {'vt': 'donor', 'v': {'k': 'NUMBER', 't': t}}  # noqa: E731
+    groups, gops = [[num(nums[0])]], [[]]
+    add_ops = []
+    for op, n in zip(ops, nums[1:]):
+        if op in '*/':
+            groups[-1].append(num(n))
+            gops[-1].append({'vt': 'donor', 'v': {'k': 'MUL_OP', 't': op}})
+        else:
+            add_ops.append({'vt': 'donor', 'v': {'k': 'ADD_OP', 't': op}})
+            groups.append([num(n)])
+            gops.append([])
+    muls = [{'cls': 'NumberMulExpr', 'how': 'from_children', 'args': {'operands': {'vt': 'tuple', 'v': g_}, 'ops': {'vt': 'tuple', 'v': o_}}} for g_, o_ in zip(groups, gops)]
+    add = {'cls': 'NumberAddExpr', 'how': 'from_children', 'args': {'operands': {'vt': 'tuple', 'v': muls}, 'ops': {'vt': 'tuple', 'v': add_ops}}}
+    return {'cls': 'NumberExpr', 'how': 'from_children', 'args': {'number_add_expr': add}}
+
+
+def _sweep_expr():
+    """Every flat expression of 2-3 operands from {2000, 1, 12, 0.5} x every operator sequence, assembled with from_children, alone and as the value
+    of a meta item, a custom directive, an amount and a cost: the places where the grammar also accepts a date or another token kind."""
+    import itertools
+    pool = ['2000', '1', '12', '0.5']
+    key = {'vt': 'donor', 'v': {'k': 'META_KEY', 't': 'kk:'}}
+    for n in (2, 3):
+        for nums in itertools.product(pool, repeat=n):
+            for ops in itertools.product('+-*/', repeat=n - 1):
+                e = lambda: flat_expr_spec(list(nums), list(ops))  # noqa: E731
+                yield {'spec': e()}
+                yield {'spec': {'cls': 'MetaItem', 'how': 'from_children', 'args': {'indent': {'vt': 'donor', 'v': {'k': 'INDENT', 't': '  '}}, 'key': key, 'value': e()}}}
+                yield {'spec': {'cls': 'Custom', 'how': 'from_children', 'args': {'date': {'vt': 'donor', 'v': {'k': 'DATE', 't': '2000-01-01'}},
+                                                                                'type': {'vt': 'donor', 'v': {'k': 'ESCAPED_STRING', 't': '"t"'}},
+                                                                                'values': [e()]}}}
+                yield {'spec': {'cls': 'Amount', 'how': 'from_children', 'args': {'number': e(), 'currency': {'vt': 'donor', 'v': {'k': 'CURRENCY', 't': 'USD'}}}}}
+                yield {'spec': {'cls': 'UnitCost', 'how': 'from_children', 'args': {'components': [e(), {'vt': 'donor', 'v': {'k': 'DATE', 't': '2000-01-01'}}]}}}
+
+
 def jobs(tier: str) -> list[Job]:
     if tier == 'quick':
-        return [Job('random', 'hyp', lambda: _build(tier), 8000), Job('optional-subsets', 'enum', _sweep, exhaustive=True)]
-    return [Job('random', 'hyp', lambda: _build(tier), 100000), Job('optional-subsets', 'enum', _sweep, exhaustive=True)]
+        return [Job('random', 'hyp', lambda: _build(tier), 8000), Job('optional-subsets', 'enum', _sweep, exhaustive=True),
+                Job('expression-sweep', 'enum', _sweep_expr, exhaustive=True)]
+    return [Job('random', 'hyp', lambda: _build(tier), 100000), Job('optional-subsets', 'enum', _sweep, exhaustive=True),
+                Job('expression-sweep', 'enum', _sweep_expr, exhaustive=True)]
